@@ -13,7 +13,7 @@ pub struct C13;
 /// The fixed set of files every invocation sees.
 pub fn standard_files() -> Vec<FileSpec> {
     let reg = |n: &str, b: &[u8]| FileSpec { name: n.to_string(), kind: FileKind::Regular(b.to_vec()) };
-    vec![
+    let v = vec![
         reg("good.json", b"{\"a\": [1, 2.5, \"x\"], \"b\": {\"c\": true}}\n"),
         reg("good.yaml", b"a:\n  - 1\n  - two\nb: {c: null}\n---\n- second\n"),
         reg("good.toml", b"title = \"t\"\n[owner]\nname = \"n\"\n"),
@@ -32,7 +32,15 @@ pub fn standard_files() -> Vec<FileSpec> {
         FileSpec { name: "pipe.json".into(), kind: FileKind::Fifo(b"[1,2,3]".to_vec()) },
         FileSpec { name: "dir".into(), kind: FileKind::Dir },
         FileSpec { name: "missing.json".into(), kind: FileKind::Missing },
-    ]
+    ];
+    // a regular file that reports size 0 but has content ("Linux\n"); only where
+    // such a file exists (otherwise the operand is simply a missing file)
+    let mut v = v;
+    let target = "/proc/sys/kernel/ostype";
+    if std::fs::metadata(target).map_or(false, |m| m.is_file() && m.len() == 0) && std::fs::read(target).map_or(false, |b| !b.is_empty()) {
+        v.push(FileSpec { name: "ostype.yaml".into(), kind: FileKind::ProcLink(target.into()) });
+    }
+    v
 }
 
 pub fn vocabulary() -> Vec<&'static str> {
@@ -48,7 +56,7 @@ fn vocabulary_base() -> Vec<&'static str> {
     vec![
         "-f", "-t", "-fjson", "-fj", "-f=yaml", "-fy", "-fm", "-ft", "-ftoml", "-tm", "-tmsgpack", "-t=toml", "-tt", "-ty", "-tyaml", "-tj", "json", "j", "yaml", "toml", "m", "xml", "JSON", "-fxml", "-t=", "-x",
         "--foo", "--format=json", "-h", "--help", "-V", "--version", "--", "-", "good.json", "good.yaml", "good.toml", "good.msgpack", "bad.json", "undetectable.txt", "nullroot.json", "noext", "empty.json",
-        "MIXED.YmL", "pipe.json", "dir", "missing.json", "./-",
+        "MIXED.YmL", "pipe.json", "dir", "missing.json", "./-", "ostype.yaml",
     ]
 }
 
